@@ -66,7 +66,7 @@ class Main(Suite):
     go_cmd = "c46"
     coq_imports = "From GoGit Require Import Model.Blame."
     quick_n = 240
-    thorough_n = 4000
+    thorough_n = 1500
     coq_chunk = 80
 
     def gen(self, rng, n, tier):
